@@ -48,8 +48,10 @@ CLASSES = [
     "TriangularFactoredPositiveDefiniteMatrix", "DenseDefiniteMatrix", "DensePositiveDefiniteMatrix",
     "OrthogonalMatrix", "ScaledOrthogonalMatrix", "EigendecomposedSymmetricMatrix",
     "EigendecomposedPositiveDefiniteMatrix", "SquareLowRankUpdateMatrix", "SymmetricLowRankUpdateMatrix",
-    "PositiveDefiniteLowRankUpdateMatrix",
+    "PositiveDefiniteLowRankUpdateMatrix", "IdentityMatrix", "DenseRectangularMatrix", "DenseSquareMatrix",
+    "InverseLUFactoredSquareMatrix", "DenseSymmetricMatrix",
 ]
+LU_CLASSES = {"DenseSquareMatrix": ("self._array", "self._lu_transposed", "array", "lu_transposed"), "InverseLUFactoredSquareMatrix": ("self._inv_array", "self._inv_lu_transposed", "inv_array", "inv_lu_transposed")}
 LOWRANK = ("SquareLowRankUpdateMatrix", "SymmetricLowRankUpdateMatrix", "PositiveDefiniteLowRankUpdateMatrix")
 SYMMETRIC_ARRAY = ("DenseDefiniteMatrix", "DensePositiveDefiniteMatrix", "DenseSymmetricMatrix")
 
@@ -236,6 +238,10 @@ def instance_lemmas(k, alg: Alg, args, attrs):
         alg.lemmas.append((w, rep))
         if wt != w:
             alg.lemmas.append((wt, rep_t))
+    if k.name == "DenseSymmetricMatrix":
+        # array = Q E Q^T (eigendecomposition contract), oriented as A -> Q E Q^T
+        Q, E = alg.atom("Q"), alg.atom("E")
+        alg.lemmas.append(((("m", "A", False, False),), alg.mul(alg.mul(Q, E), alg.T(Q))))
     if k.name in ("DenseDefiniteMatrix", "DensePositiveDefiniteMatrix"):
         # array = s F F^T (factor contract), oriented as A -> s F F^T
         F = alg.atom("F")
@@ -245,9 +251,9 @@ def instance_lemmas(k, alg: Alg, args, attrs):
 
 
 def rule_algebra(rep, program: Program):
-    r1 = rep.rule("R1", "left product, right product, dense array and transpose of each class denote one operator", floor=66)
-    r4 = rep.rule("R4", "inverse, square root and scalar multiple satisfy M^-1 M = I, S S^T = M, (c M) = c * M", floor=46)
-    r5 = rep.rule("R5", "forwarded capacitance caches equal their definition on the new arguments; lower/upper flags follow transposition", floor=11)
+    r1 = rep.rule("R1", "left product, right product, dense array and transpose of each class denote one operator", floor=90)
+    r4 = rep.rule("R4", "inverse, square root and scalar multiple satisfy M^-1 M = I, S S^T = M, (c M) = c * M", floor=63)
+    r5 = rep.rule("R5", "forwarded capacitance caches equal their definition on the new arguments; lower/upper flags follow transposition", floor=20)
     skipped = []
     for cname in CLASSES:
         k = program.cls(cname)
@@ -255,57 +261,68 @@ def rule_algebra(rep, program: Program):
             f = k.resolve(member)
             if f is None or f.is_abstract:
                 continue
-            alg = Alg()
-            try:
-                args, attrs = symbolic_instance(program, k, alg)
-                if k.name in ("DenseDefiniteMatrix", "DensePositiveDefiniteMatrix"):
-                    attrs["self._factor"] = Val("mat", alg.atom("F"))
-                    attrs["self._sign"] = Val("scalar", Rat.const(1) if k.name == "DensePositiveDefiniteMatrix" else sign_atom("s"))
-                if k.name in LOWRANK:
-                    attrs["self._capacitance_matrix"] = Val("mat", alg.atom("C"))
-                D = den(k.name, args, alg)
-                attrs["<den>"] = D
-                attrs["<s>"] = sign_atom("s") if k.name != "DensePositiveDefiniteMatrix" else Rat.const(1)
-                instance_lemmas(k, alg, args, attrs)
-                ev = MatEval(program, k, alg, attrs, den, member)
-                O = alg.atom("O")
-                env = {}
-                if member in ("_left_matrix_multiply", "_right_matrix_multiply"):
-                    env[f.params[1]] = Val("mat", O)
-                if member == "_scalar_multiply":
-                    env[f.params[1]] = ("scalarparam",)
-                rets = _returns(ev, f, env)
-            except AnalysisError as e:
-                skipped.append(f"{cname}.{member}: {str(e)[:70]}")
-                continue
-            for asm, v in rets:
-                label = {"class": cname, "member": f.qualname, "assume": {a: b for a, b in asm.items()}}
+            for lu_flag in ((False, True) if cname in LU_CLASSES else (None,)):
+                alg = Alg()
                 try:
-                    ev.assume = asm
-                    if member == "_left_matrix_multiply":
-                        got, want = ev._mat(f, v), alg.mul(D, O)
-                        _cmp(r1, alg, got, want, f, cname, "left product is not M @ other", label)
-                    elif member == "_right_matrix_multiply":
-                        got, want = ev._mat(f, v), alg.mul(O, D)
-                        _cmp(r1, alg, got, want, f, cname, "right product is not other @ M", label)
-                    elif member == "_construct_array":
-                        _cmp(r1, alg, ev._mat(f, v), D, f, cname, "dense array is not the matrix the products implement", label)
-                    elif member == "_construct_transpose":
-                        _cmp(r1, alg, ev._mat(f, v), alg.T(D), f, cname, "transpose object does not denote M^T", label)
-                        _check_caches(r5, alg, ev, f, v, cname, "transpose")
-                    elif member == "_construct_inv":
-                        got = alg.mul(ev._mat(f, v), D)
-                        _cmp(r4, alg, got, alg.ident(), f, cname, "inverse object times M is not the identity", label)
-                        _check_caches(r5, alg, ev, f, v, cname, "inv")
-                    elif member == "_construct_sqrt":
-                        smat = ev._mat(f, v)
-                        _cmp(r4, alg, alg.mul(smat, alg.T(smat)), D, f, cname, "sqrt @ sqrt.T is not M", label)
-                    elif member == "_scalar_multiply":
-                        c = ev.scalar_param()
-                        _cmp(r4, alg, ev._mat(f, v), D.scale(c), f, cname, "scalar multiple does not denote c * M", label)
-                        _check_caches(r5, alg, ev, f, v, cname, "scalar_multiply")
+                    args, attrs = symbolic_instance(program, k, alg)
+                    if cname in LU_CLASSES:
+                        arr_attr, flag_attr, _pa, _pf = LU_CLASSES[cname]
+                        attrs[flag_attr] = Val("bool", lu_flag)
+                        base = attrs[arr_attr].v
+                        attrs["<lu_matrix>"] = alg.T(base) if lu_flag else base
+                    if cname == "DenseSymmetricMatrix":
+                        alg.orth.add("Q")
+                        alg.sym.add("E")
+                        attrs["self._eigvec"] = Val("mat", alg.atom("Q"))
+                        attrs["self._eigval"] = Val("mat", alg.atom("E"), diagvec=True)
+                    if k.name in ("DenseDefiniteMatrix", "DensePositiveDefiniteMatrix"):
+                        attrs["self._factor"] = Val("mat", alg.atom("F"))
+                        attrs["self._sign"] = Val("scalar", Rat.const(1) if k.name == "DensePositiveDefiniteMatrix" else sign_atom("s"))
+                    if k.name in LOWRANK:
+                        attrs["self._capacitance_matrix"] = Val("mat", alg.atom("C"))
+                    D = den(k.name, args, alg)
+                    attrs["<den>"] = D
+                    attrs["<s>"] = sign_atom("s") if k.name != "DensePositiveDefiniteMatrix" else Rat.const(1)
+                    instance_lemmas(k, alg, args, attrs)
+                    ev = MatEval(program, k, alg, attrs, den, member)
+                    O = alg.atom("O")
+                    env = {}
+                    if member in ("_left_matrix_multiply", "_right_matrix_multiply"):
+                        env[f.params[1]] = Val("mat", O)
+                    if member == "_scalar_multiply":
+                        env[f.params[1]] = ("scalarparam",)
+                    rets = _returns(ev, f, env)
                 except AnalysisError as e:
                     skipped.append(f"{cname}.{member}: {str(e)[:70]}")
+                    continue
+                for asm, v in rets:
+                    label = {"class": cname, "member": f.qualname, "assume": {a: b for a, b in asm.items()}}
+                    try:
+                        ev.assume = asm
+                        if member == "_left_matrix_multiply":
+                            got, want = ev._mat(f, v), alg.mul(D, O)
+                            _cmp(r1, alg, got, want, f, cname, "left product is not M @ other", label)
+                        elif member == "_right_matrix_multiply":
+                            got, want = ev._mat(f, v), alg.mul(O, D)
+                            _cmp(r1, alg, got, want, f, cname, "right product is not other @ M", label)
+                        elif member == "_construct_array":
+                            _cmp(r1, alg, ev._mat(f, v), D, f, cname, "dense array is not the matrix the products implement", label)
+                        elif member == "_construct_transpose":
+                            _cmp(r1, alg, ev._mat(f, v), alg.T(D), f, cname, "transpose object does not denote M^T", label)
+                            _check_caches(r5, alg, ev, f, v, cname, "transpose")
+                        elif member == "_construct_inv":
+                            got = alg.mul(ev._mat(f, v), D)
+                            _cmp(r4, alg, got, alg.ident(), f, cname, "inverse object times M is not the identity", label)
+                            _check_caches(r5, alg, ev, f, v, cname, "inv")
+                        elif member == "_construct_sqrt":
+                            smat = ev._mat(f, v)
+                            _cmp(r4, alg, alg.mul(smat, alg.T(smat)), D, f, cname, "sqrt @ sqrt.T is not M", label)
+                        elif member == "_scalar_multiply":
+                            c = ev.scalar_param()
+                            _cmp(r4, alg, ev._mat(f, v), D.scale(c), f, cname, "scalar multiple does not denote c * M", label)
+                            _check_caches(r5, alg, ev, f, v, cname, "scalar_multiply")
+                    except AnalysisError as e:
+                        skipped.append(f"{cname}.{member}: {str(e)[:70]}")
     rep.extra["members_outside_algebra"] = skipped
     r1.notes.append(f"{len(skipped)} (class, member) pairs lie outside the operator algebra (comprehension/LAPACK based); listed in the evidence")
     return r1, r4, r5
@@ -351,6 +368,18 @@ def _check_caches(r5, alg: Alg, ev: MatEval, f, v: Val, cname, how):
         r5.inst({"class": cname, "member": f.qualname, "forwarded capacitance": repr(alg.simplify(got))[:80], "definition on new arguments": repr(alg.simplify(want))[:80]})
         if not ok:
             r5.violate(PROP, f"{f.qualname}[{cname}]:capacitance-cache", f"{cname}.{f.name} hands the constructor the capacitance matrix {alg.simplify(got)!r}, but for the new arguments the capacitance K^-1 + s V A^-1 U is {alg.simplify(want)!r}: inverses / determinants of the result use a stale cache", node=f.node, file=f.file)
+    if v.cls in LU_CLASSES and how in ("transpose", "inv") and "<lu_matrix>" in ev.attrs:
+        _aa, _fa, pa, pf = LU_CLASSES[v.cls]
+        new_arr = _m(v.args, pa, alg)
+        fl = v.args.get(pf)
+        if fl is None or fl.kind != "bool" or not isinstance(fl.v, bool):
+            raise AnalysisError(f"{f.qualname}: LU transposition flag of the new object is not decidable")
+        lm = ev.attrs["<lu_matrix>"]
+        want = alg.T(lm) if fl.v else lm
+        ok = alg.equal(new_arr, want)
+        r5.inst({"class": cname, "member": f.qualname, "forwarded LU factors with flag": fl.v, "consistent with new array": ok})
+        if not ok:
+            r5.violate(PROP, f"{f.qualname}[{cname}]:lu-flag", f"{cname}.{f.name} forwards its LU factors with transposition flag {fl.v}, but the factors then describe {alg.simplify(want)!r} while the new object's array is {alg.simplify(new_arr)!r}: solves with the result use the wrong (transposed) system", node=f.node, file=f.file)
     if v.cls in ("TriangularMatrix", "InverseTriangularMatrix") and "lower" in v.args:
         arr = _m(v.args, "array" if v.cls == "TriangularMatrix" else "inverse_array", alg)
         base = next((ev.attrs[a] for a in ("self._inverse_array", "self._array") if a in ev.attrs and ev.attrs[a].kind == "mat"), None)
